@@ -13,9 +13,10 @@ Open Scope N_scope.
 Theorem wf_file_meaning bs : wf_file bs = true ->
   exists hdr meta kv limit rs,
     spec_header bs = Some (hdr, meta) /\ meta_kv meta = Some kv /\ spec_records bs = Some rs /\
-    (* prefix; length field; header = mappedHeader(meta) *)
-    has_prefix bs c_hdrPrefix = true /\ get32 bs 28 = hdr /\ hdr mod 32 = 0 /\ len meta <= 512 /\
-    (exists h, mapped_header meta = Some h /\ has_prefix bs h = true /\ len h = hdr) /\
+    (* prefix; length field (32-aligned, at most one page); metadata = the bytes
+       after it up to the first NUL *)
+    has_prefix bs c_hdrPrefix = true /\ get32 bs 28 = hdr /\ hdr mod 32 = 0 /\ (32 <= hdr /\ hdr <= 16384) /\
+    meta = cut_nul (slice bs 32 (hdr - 32)) /\
     (* size and allocation limit *)
     len bs mod 16384 = 0 /\ 16384 <= len bs /\
     limit = get32 bs hdr /\ limit <= len bs /\ limit mod 32 = 0 /\ (limit = 0 \/ hdr + 2052 <= limit) /\
@@ -35,12 +36,10 @@ Proof.
   unfold wf_file, spec_records.
   destruct (spec_read bs) as [[[[[hdr meta] kv] limit] tbl]|] eqn:E; [|discriminate]. intros _.
   pose proof (spec_read_inv _ _ _ _ _ _ E) as (Eh & Ek & El & H1 & H2 & H3 & H4 & H5 & Ht & Hp).
-  pose proof (spec_header_inv _ _ _ Eh) as (h & Hm & Hph & Elen & E28 & Em & Hpp & Hle).
-  pose proof (mapped_header_len _ _ Hm) as (_ & Hml & Hb & Hmod & _).
+  pose proof (spec_header_inv _ _ _ Eh) as (Hpp & E28 & Hb & Hmod & Hfit & Em).
   exists hdr, meta, kv, limit, (concat tbl).
   split; [exact Eh|]. split; [exact Ek|]. split; [reflexivity|]. split; [exact Hpp|].
-  split; [now symmetry|]. split; [now rewrite <- Elen|]. split; [exact Hml|].
-  split; [exists h; repeat split; assumption|].
+  split; [now symmetry|]. split; [exact Hmod|]. split; [exact Hb|]. split; [exact Em|].
   split; [exact H1|]. split; [exact H2|]. split; [exact El|]. split; [exact H3|]. split; [exact H4|].
   split; [rewrite first_off_val in H5; exact H5|]. split.
   - intros r Hr. pose proof (wf_record_in _ _ _ _ _ Ht Hr) as [Hri _].
